@@ -75,6 +75,26 @@ def run(tier):
                    dict(module="MC_PDFDims.tla", cfg="MC_PDFDims.cfg", workers=4)])
     drive = vlib.build_harness(chk.work)
     jobs = c13_jobs(chk.rng, quick)
+    # Aztec exact fits (single lengths / percentages fill a size exactly): a wide sweep asks the real encoder, without pixels, for the automatic
+    # size of every payload length 1..300 (thorough 1..1200) of five alphabets at a dozen percentages and then requests the sizes just below it
+    # explicitly. The sweep is only a generator: every pair in which the smaller request was ACCEPTED, plus a control sample of refused ones,
+    # is put into the job list, executed again and judged by TraceAztec (auto-not-minimal) like every other pair.
+    pcts = sorted(set([10, 50, 75] + chk.rng.sample(range(0, 101), 5 if quick else 25)))
+    explored = suspicious = 0
+    for alpha in (b"ABCDEFGHIJKLMNOPQRSTUVWXYZ", b"0123456789", bytes(range(128, 160)), b"abc xyz, 12. AB", b"A"):
+        for pct in pcts:
+            maxn = 300 if quick else 1200
+            text = bytes(chk.rng.choice(alpha) for _ in range(maxn))
+            autos = vlib.run_drive(drive, [gen.enc("aztec", list(text[:n]), (pct, 0), proj="outcome") for n in range(1, maxn + 1)], chk.work, name="azfit-a")
+            reqs = [(n + 1, req) for n, e in enumerate(autos) if e["res"]["kind"] == "ok" for (sz, req) in C03.AZ_SIZES if e["res"]["w"] - 12 <= sz < e["res"]["w"]]
+            outs = vlib.run_drive(drive, [gen.enc("aztec", list(text[:n]), (pct, req), proj="outcome") for (n, req) in reqs], chk.work, name="azfit-b")
+            explored += len(autos) + len(outs)
+            acc = [nr for nr, e in zip(reqs, outs) if e["res"]["kind"] == "ok"]
+            suspicious += len(acc)
+            for (n, req) in acc[:40] + chk.rng.sample(reqs, min(len(reqs), 12)):
+                jobs.append(gen.enc("aztec", list(text[:n]), (pct, 0), proj="outcome", hist=len(jobs)))
+                jobs.append(gen.enc("aztec", list(text[:n]), (pct, req), proj="outcome", hist=jobs[-1]["hist"]))
+    chk.cov["aztec_exact_fit_sweep"] = dict(encodes_explored_by_generator=explored, smaller_request_accepted=suspicious, percentages=pcts)
     # shape-chooser conformance (tools/encconf.py): calcDimensions for every codeword count x level against PDFDims; shapes that break the
     # rules of the property, and a sample of shapes that merely differ from the model's, are produced through the public API and measured
     wrong, drift = encconf.dims_conformance(chk)
